@@ -17,7 +17,7 @@ from ..program import AnalysisError, ClassInfo, FunctionInfo, fn_nodes, norm
 from ..callgraph import CallSite
 from ..cfg import cfg_of, CNode
 from ..excflow import Esc, ExcFlow
-from ..fold import Inst, Unknown, is_unknown, ClassVal
+from ..fold import FuncVal, Inst, Unknown, is_unknown, ClassVal
 from ..spec import tables as T
 from .common import (JWE_CONSUME, JWS_CONSUME, can_reach_exit, const_value, entries, impls, is_const, names_in, scope_of,
                      sites_calling, succ_by_label)
@@ -589,6 +589,73 @@ def e2d(ctx) -> None:
     ctx.count("E2d", n, 8, "table lookups keyed by mapping members / parameters in consume-reachable code")
 
 
+def e2f(ctx) -> None:
+    """membership tests `member in TABLE` against a hash table: an unhashable JSON value (list / object) makes the test itself
+    raise TypeError, so the member must be known to be a str - by a dominating isinstance test or because its registry entry
+    validates it as a string before this code runs"""
+    eng = ctx.eng
+    P = eng.prog
+    F = eng.folder
+    from .c05 import _resolve_local
+    # member name -> validator names declared for it in the JWK registries
+    decl: Dict[str, Set[str]] = {}
+
+    def add_reg(reg):
+        if isinstance(reg, dict):
+            for k, p_ in reg.items():
+                v = F.get_attr(p_, "validate")
+                decl.setdefault(k, set()).add(v.fn.name if isinstance(v, FuncVal) else repr(v))
+    add_reg(F.module_value(P.mod("registry"), "JWK_PARAMETER_REGISTRY"))
+    bk = P.cls("rfc7517.models:BaseKey")
+    for c in bk.all_subclasses():
+        add_reg(F.class_attr(c, "value_registry"))
+    n = 0
+    for fn in consume_scope(eng):
+        cfg = None
+        for node in fn_nodes(fn):
+            if not (isinstance(node, ast.Compare) and len(node.ops) == 1 and isinstance(node.ops[0], (ast.In, ast.NotIn))):
+                continue
+            left = node.left
+            ltxt = _resolve_local(eng, fn, left)
+            try:
+                lp = ast.parse(ltxt, mode="eval").body
+            except SyntaxError:
+                continue
+            if not (isinstance(lp, ast.Subscript) and isinstance(lp.slice, ast.Constant) and isinstance(lp.slice.value, str) and isinstance(lp.value, ast.Name) and lp.value.id in fn.params):
+                continue
+            member = lp.slice.value
+            # the container is a hash table (dict / set) of the repository
+            tab = node.comparators[0]
+            tv = None
+            if isinstance(tab, ast.Attribute) and isinstance(tab.value, ast.Name) and fn.cls is not None and tab.value.id == fn.self_name:
+                tv = F.class_attr(fn.cls, tab.attr)
+            elif isinstance(tab, ast.Name):
+                r = eng.cg.resolve_name(fn, tab.id)
+                if isinstance(r, tuple) and r[0] == "var":
+                    tv = F.module_value(fn.module, tab.id)
+            if not isinstance(tv, (dict, set, frozenset)):
+                continue
+            n += 1
+            cfg = cfg or cfg_of(fn)
+            mn = cfg.node_of(node)
+            ok = False
+            how = ""
+            vals = decl.get(member)
+            if vals and vals <= {"is_str"}:
+                ok = True
+                how = f"{member!r} is validated as a string by its registry entry before import (C11 R11.4)"
+            else:
+                ktxt = norm(left)
+                ts = [t for t in cfg.nodes if t.kind == "test" and isinstance(t.ast, ast.Call) and isinstance(t.ast.func, ast.Name) and t.ast.func.id == "isinstance" and len(t.ast.args) == 2
+                      and norm(t.ast.args[0]) == ktxt and norm(t.ast.args[1]) == "str"]
+                if ts and mn is not None and mn not in cfg.reachable(cfg.entry, edge_filter=lambda a, b, lab, _ts=ts: not (a in _ts and lab == "true")):
+                    ok = True
+                    how = "dominated by isinstance(…, str)"
+            ctx.check(ok, "E2f", fn, node, f"{fn.short} :: {norm(node)}", f"`{norm(node)}` hashes the JSON member {member!r} without it being known to be a string: a list / object value "
+                      "escapes as TypeError (unhashable)", how or "isinstance(value, str) first", construct=f"unhashable member in {norm(node)[:60]}")
+    ctx.count("E2f", n, 4, "membership tests of JWK members against hash tables")
+
+
 def _literal_keys_ok(eng, fn: FunctionInfo, node: ast.Subscript) -> bool:
     if not isinstance(node.slice, ast.Name) or node.slice.id not in fn.params:
         return False
@@ -966,6 +1033,7 @@ def run(ctx) -> None:
     ctx.guard(e2e_validators)
     ctx.guard(e2c)
     ctx.guard(e2d)
+    ctx.guard(e2f)
     ctx.guard(e3)
     ctx.guard(e4)
     ctx.extra["consume_reachable_functions"] = len(consume_scope(ctx.eng))
